@@ -12,10 +12,16 @@
    per input by the check's Earley oracle over the published grammar).
    And for every source text: a syntax error of the front end carries exactly the byte span
    and the text of that token in the source (or the empty span at the end of the source when
-   the input ended too early) — C09_parse_error_is_exact, from Lex/Spans.v. *)
+   the input ended too early) — C09_parse_error_is_exact, from Lex/Spans.v.
+   AND what an accepted file is turned into (C09_front_end_is_the_inverse_of_a_printer,
+   Front/Unparse.v): the AST handed to the later stages, written out again by a straightforward
+   printer (`unparse`: attributes, keyword, name, fieldsets with `_`/names and symbols, variants,
+   payload types with `::`, `<`, `,`, `>`, `()`), is exactly the accepted token sequence with the
+   positions erased — nothing is lost, added or reordered between the source and the AST that
+   C02, C06, C10, C12 and C13 read the declarations from. *)
 From Coq Require Import List Arith.
 From Kiki Require Import Base.Ord Base.Chars Data LR.Driver LR.Grammar LR.Inv LR.Complete LR.Sound LR.ErrPos
-  LR.Validate LR.Term LR.ValidateProofs Lex.Model Ast.Validate Front.KikiGrammar Front.Parse Front.KikiValid Front.FrontProofs.
+  LR.Validate LR.Term LR.ValidateProofs Lex.Model Ast.Validate Front.KikiGrammar Front.Parse Front.KikiValid Front.FrontProofs Front.Positions Front.Unparse.
 From Kiki Require Gen.KikiTables Gen.KikiAnn.
 Import ListNotations.
 
@@ -81,6 +87,11 @@ Theorem C09_parse_error_is_exact : forall src tokens fuel e,
     end.
 Proof. exact front_parse_error_exact. Qed.
 
+Theorem C09_front_end_is_the_inverse_of_a_printer : forall fuel src toks ast,
+  front_parse fuel src toks = Ok ast -> map erase_tok toks = unparse ast.
+Proof. exact front_end_inverts_unparse. Qed.
+
+Print Assumptions C09_front_end_is_the_inverse_of_a_printer.
 Print Assumptions C09_grammar_of_record.
 Print Assumptions C09_front_end_terminates.
 Print Assumptions C09_front_end_never_panics.
